@@ -429,11 +429,17 @@ type FuncMap map[string]interface{}
 // value is the template, so calls can be chained.
 //
 // It also panics if a name in the map is the name of one of the functions that this
-// package adds to the pipelines of actions.
+// package adds to the pipelines of actions, or of one of the predefined escapers "html" and
+// "urlquery", which the contextual escaper treats as equivalent to its own.
 func (t *Template) Funcs(funcMap FuncMap) *Template {
 	for name := range funcMap {
 		if _, reserved := funcs[name]; reserved {
 			panic(fmt.Sprintf("html/template: function name %q is reserved for the sanitizers of this package", name))
+		}
+		if predefinedEscapers[name] {
+			// The escaper takes a final "html" or "urlquery" in a pipeline for text/template's
+			// predefined escaper and leaves its own sanitizer out.
+			panic(fmt.Sprintf("html/template: function name %q is reserved for the predefined escaper of that name", name))
 		}
 	}
 	t.text.Funcs(template.FuncMap(funcMap))
